@@ -393,6 +393,7 @@ func c04FirstFrom(b *ssa.BasicBlock, pred func(ssa.Instruction) bool) []ssa.Inst
 var c04Packages = []string{pkgFilters, pkgDispatcher, pkgRevProxy, pkgResponse}
 
 func c04(c *eng.Ctx) {
+	defer c04Transparent(c)
 	c.Rule("R1", "terminate ⇒ not forwarded: in every function and closure of the filters, dispatcher, reverse-proxy and response packages no CFG path leads from a terminating call (TerminateWithError, responseError, responsewriters.InternalError/Forbidden/ErrorNegotiated, http.Error, the proxy error handler, WriteHeader(const)) to a forwarding call (next handler's ServeHTTP, proxy ServeHTTP, RoundTrip); in a filter nothing else is written to the response after it", 41)
 	c.Rule("R2", "reason ↔ status: refused TryAcquire ⇒ NewTooManyRequests; Pop error, cluster not proxied (dispatcher and WithUpstreamInfo) ⇒ NewServiceUnavailable; refused impersonation ⇒ responsewriters.Forbidden; each refusal edge answers before any exit or forward; the error travels unchanged to TerminateWithError, which sets Retry-After for 503 and for 429 with a suggested delay before ErrorNegotiated writes the Status", 11)
 	c.Rule("R3", "write allow-list: of the outbound http.Request only Header (clone / empty when nil), URL, Body (nil under ContentLength==0, or a delegating reader), Close=false are stored; the relayed status is res.StatusCode, headers go through copyHeader(rw.Header(), res.Header) after deleting only hop-by-hop keys, the body through copyResponse(rw, res.Body); end-to-end request headers are only touched for the allow-listed keys", 23)
@@ -1434,4 +1435,141 @@ func c04Fixtures(c *eng.Ctx) {
 		}
 		c.Fixture("C04.typestate/"+tc.name, fmt.Sprint(tc.want), got)
 	}
+}
+
+// ---------------------------------------------------------------------------------------
+// R5 (added after seeded change C04-2): I/O wrappers on the relay path are transparent.
+
+// c04Transparent checks every type of the forwarding packages that wraps an io.Writer /
+// io.Reader / http.ResponseWriter delegate in a field: Write/Read hand the caller's own
+// slice to the delegate on every path and return the delegate's results; WriteHeader hands
+// on the caller's status.
+func c04Transparent(c *eng.Ctx) {
+	c.Rule("R5", "I/O wrappers on the relay path are transparent: Write(b)/Read(p) of every wrapper in the filter, dispatcher and reverse-proxy packages call the delegate with the caller's own slice on every path and return the delegate's (n, err); WriteHeader passes the caller's status on", 6)
+	n := 0
+	for _, pkg := range []string{pkgFilters, pkgDispatcher, pkgRevProxy} {
+		p := c.W.Pkg(pkg)
+		if p == nil {
+			continue
+		}
+		sc := p.Pkg.Scope()
+		for _, name := range sc.Names() {
+			tn, ok := sc.Lookup(name).(*types.TypeName)
+			if !ok {
+				continue
+			}
+			named, ok := tn.Type().(*types.Named)
+			if !ok {
+				continue
+			}
+			st, ok := named.Underlying().(*types.Struct)
+			if !ok {
+				continue
+			}
+			for _, mn := range []string{"Write", "Read", "WriteHeader"} {
+				m := c.W.DeclaredMethod(named, mn)
+				if m == nil || m.Blocks == nil || len(m.Params) != 2 {
+					continue
+				}
+				// delegate fields: interface-typed fields whose method set has the same method
+				var delegates []string
+				for i := 0; i < st.NumFields(); i++ {
+					ft := st.Field(i).Type()
+					if _, isI := ft.Underlying().(*types.Interface); !isI {
+						continue
+					}
+					if obj, _, _ := types.LookupFieldOrMethod(ft, false, nil, mn); obj != nil {
+						delegates = append(delegates, st.Field(i).Name())
+					}
+				}
+				if len(delegates) == 0 {
+					continue
+				}
+				n++
+				tname := eng.TypeName(named)
+				isDeleg := func(ins ssa.Instruction) bool {
+					ci, ok := ins.(*ssa.Call)
+					if !ok || !eng.MethodNameIs(ci, mn) {
+						return false
+					}
+					for _, d := range delegates {
+						if eng.FieldLoadOf(eng.Receiver(ci), tname, d) {
+							a := eng.Args(ci)
+							return len(a) == 1 && a[0] == ssa.Value(m.Params[1])
+						}
+					}
+					return false
+				}
+				good := eng.ReachFromEntry(m, eng.PathQuery{Target: eng.IsExit, Avoid: isDeleg}) == nil
+				detail := "a path returns without handing the caller's own argument to the delegate (data is dropped, truncated or replaced on the way through the gateway)"
+				// exactly once
+				eng.Instrs(m, func(ins ssa.Instruction) {
+					if isDeleg(ins) && eng.ReachAfter(ins, eng.PathQuery{Target: isDeleg}) != nil {
+						good, detail = false, "the delegate is called twice on a path"
+					}
+				})
+				// any other call of the delegate's method with a different argument
+				eng.Instrs(m, func(ins ssa.Instruction) {
+					ci, ok := ins.(*ssa.Call)
+					if !ok || !eng.MethodNameIs(ci, mn) || isDeleg(ins) {
+						return
+					}
+					for _, d := range delegates {
+						if eng.FieldLoadOf(eng.Receiver(ci), tname, d) {
+							good, detail = false, "the delegate is called with something else than the caller's own argument (a re-sliced, copied or rewritten buffer / another status)"
+						}
+					}
+				})
+				// results are the delegate's
+				if good && mn != "WriteHeader" {
+					eng.Instrs(m, func(ins ssa.Instruction) {
+						r, ok := ins.(*ssa.Return)
+						if !ok || r.Block() == m.Recover || len(r.Results) != 2 {
+							return
+						}
+						for i, v := range c04Returned(r) {
+							cc, idx := eng.CallResultOf(v)
+							if cc == nil || !isDeleg(cc) || idx != i {
+								good, detail = false, "the count/error returned to the caller is not the delegate's (a short or padded count makes the copier stop or continue wrongly)"
+							}
+						}
+					})
+				}
+				c.Check("R5", m, shortName(tname)+"."+mn+" is transparent", m.Pos(), good, detail)
+			}
+		}
+	}
+	if n < 6 {
+		c.Fail("R5", nil, "I/O wrappers on the relay path", 0, fmt.Sprintf("expected the response-writer, body-reader and flush wrappers, found %d wrapper methods", n))
+	}
+}
+
+// c04Returned resolves the values a Return yields, through result cells (named results and
+// defer spills): a cell that is only ever assigned one value yields that value.
+func c04Returned(r *ssa.Return) []ssa.Value {
+	out := eng.ReturnResults(r)
+	for i, v := range out {
+		u, ok := v.(*ssa.UnOp)
+		if !ok {
+			continue
+		}
+		a, ok := u.X.(*ssa.Alloc)
+		if !ok || a.Referrers() == nil {
+			continue
+		}
+		var val ssa.Value
+		same := true
+		for _, ref := range *a.Referrers() {
+			if st, ok := ref.(*ssa.Store); ok && st.Addr == ssa.Value(a) {
+				if val != nil && val != st.Val {
+					same = false
+				}
+				val = st.Val
+			}
+		}
+		if same && val != nil {
+			out[i] = val
+		}
+	}
+	return out
 }
